@@ -354,6 +354,10 @@ def run(ctx):
     probe_refutations(ctx, stats)
     probe_column_orders(ctx, stats)
 
+    # ------------------------------------------------ sessions: operation sequences on long-lived classes / parsers
+    import c07_sessions
+    c07_sessions.run_sessions(ctx, stats)
+
     # ------------------------------------------------ matches_headers on its own
     if m:
         reqs, exp = [], []
@@ -762,6 +766,9 @@ def replay(rep):
     from rpft.parsers.sheets import CSVSheetReader, XLSXSheetReader
 
     r = rep["replay"]
+    if r["fn"] in ("session", "sessions"):
+        import c07_sessions
+        return c07_sessions.replay_session(r)
     if r["fn"] == "order":
         class _V:
             coverage = {"evaluations": 0}
